@@ -302,7 +302,16 @@ class SolverMonitor:
         # --- independent re-assembly with fresh item copies (pre-call committed state)
         ic = ctx.get("items_copy")
         if ic is not None and dof1 is not None and dof0 is not None and not ctx["custom"]:
-            from felupe.tools._newton import fun_items
+            def fun_items(items_, x_, **kw):
+                """Own summation of the item vectors (not the library's fun_items): link, assemble, scale, pad, add."""
+                n_ = sum(f_.values.size for f_ in x_.fields)
+                r_ = np.zeros(n_)
+                for it_ in items_:
+                    it_.field.link(x_)
+                    v_ = np.asarray(it_.assemble.vector(field=it_.field, **kw).toarray(), float).ravel()
+                    m_ = getattr(it_.assemble, "multiplier", None)
+                    r_[: v_.size] += (1.0 if m_ is None else float(m_)) * v_
+                return r_
             try:
                 xc = ctx["x_copy"]
                 for fc, fr in zip(xc.fields, x.fields):
